@@ -539,9 +539,7 @@ pub fn coeffs(case: &Value, out: &mut Map<String, Value>) {
     let in1 = parse_f64(&case["in1"]);
     let adaptive = case.get("adaptive").and_then(|a| a.as_bool()).unwrap_or(true);
     let support = case.get("support").map(parse_f64).unwrap_or(1.5);
-    if let Some(p) = case.get("fparam") {
-        FPARAM.with(|c| c.set(parse_f64(p)));
-    }
+    FPARAM.set(case.get("fparam").map(parse_f64).unwrap_or(0.0));
     let filter = parse_filter(case["filter"].as_str().unwrap(), support);
     let norm = case.get("norm").and_then(|n| n.as_i64()).unwrap_or(0);
     let want_vals = case.get("vals").and_then(|v| v.as_bool()).unwrap_or(true);
